@@ -750,11 +750,18 @@ impl World {
                         if region.protected() {
                             (false, true, has_auth && region.framing_intact())
                         } else {
-                            (false, !base_authentic && !base_open, has_auth && region == Region::After)
+                            (false, !base_authentic && !base_open && !multi, has_auth && region == Region::After)
                         }
                     }
-                    Some(Mutation::Truncate { .. }) | Some(Mutation::Extend { .. }) => (false, !base_authentic && !base_open, false),
+                    // (with several authenticators damage behind the first one can remove a failing one: no claim then)
+                    Some(Mutation::Truncate { .. }) | Some(Mutation::Extend { .. }) => (false, !base_authentic && !base_open && !multi, false),
                 };
+                // damage in flight can also UNDO a fault the harness built in (the same bit flipped back) or cut a
+                // failing authenticator off: if every authenticator of the DELIVERED bytes verifies, nothing is claimed
+                let must_fail = must_fail && !(d.mutation.is_some() && {
+                    let (dn, dok) = wire::authenticators(&msg, keys.alg, &keys.c2s);
+                    dn >= 1 && dok == dn
+                });
                 if let CookieTruth::Issued { server, epoch, .. } = &rec.cookie {
                     if *server == si && self.servers[si].model_state(*epoch) == CookieState::Invalid {
                         probe("c19-expired-cookie-delivered");
@@ -954,6 +961,17 @@ impl World {
             _ => false,
         };
         let authentic_datagram = resp_rec.as_ref().map(|r| r.authentic_time).unwrap_or(false) && unprotected_only;
+        // built by a peer that holds the session keys - or, after damage in flight, whatever is left
+        // still has all of its authenticators verifying under the session key (truth on the delivered bytes)
+        let forged_keyed = match &d.meta {
+            Meta::Forged { keyed, .. } => {
+                *keyed || (d.mutation.is_some() && {
+                    let (n, ok) = wire::authenticators(&msg, keys.alg, &keys.s2c);
+                    n >= 1 && ok == n
+                })
+            }
+            _ => false,
+        };
         simkit::oracle("C23");
         match &self.sess[c].kind {
             Kind::Hand => {
@@ -988,7 +1006,7 @@ impl World {
                             check!(
                                 "C25",
                                 "c25-client-authenticates-unauthentic-datagram",
-                                !authenticated || authentic_datagram || matches!(d.meta, Meta::Forged { keyed: true, .. }) || self.authentic_nontime(&d, unprotected_only),
+                                !authenticated || authentic_datagram || forged_keyed || self.authentic_nontime(&d, unprotected_only),
                                 "hand client {c} reports authenticated fields for datagram {:?} mutation {:?}",
                                 d.meta,
                                 d.mutation
@@ -999,7 +1017,7 @@ impl World {
                             check!(
                                 "C25",
                                 "c25-client-takes-unauthentic-datagram-as-time",
-                                (authentic_datagram && genuine_for == pending_req) || matches!(d.meta, Meta::Forged { keyed: true, .. }),
+                                (authentic_datagram && genuine_for == pending_req) || forged_keyed,
                                 "hand client {c} accepts datagram {:?} (mutation {:?}) as the time answer to request {pending_req:?}",
                                 d.meta,
                                 d.mutation
@@ -1046,7 +1064,7 @@ impl World {
                                 check!(
                                     "C25",
                                     "c25-nts-source-measures-unauthentic-datagram",
-                                    (authentic_datagram && genuine_for == self.sess[c].last_req) || matches!(d.meta, Meta::Forged { keyed: true, .. }),
+                                    (authentic_datagram && genuine_for == self.sess[c].last_req) || forged_keyed,
                                     "NTS source {c} took datagram {:?} (mutation {:?}) as a measurement",
                                     d.meta,
                                     d.mutation
